@@ -89,10 +89,10 @@ class ApplicationRules:
         # AST-parse the formula
         try:
             tree = ast.parse(formula)
-        except SyntaxError:
+        except (SyntaxError, ValueError, RecursionError, MemoryError):
             raise ApplicationStatusParseError('AST parse failure')
-        # there must be only one element in the body
-        if len(tree.body) != 1:
+        # there must be only one element in the body, and it must be an expression
+        if len(tree.body) != 1 or type(tree.body[0]) is not ast.Expr:
             raise ApplicationStatusParseError('unsupported AST expression')
         # store the expression
         self._status_formula = formula
